@@ -3,6 +3,7 @@
 \*   REV       revoker process present          EXP   activation TTL may elapse at any point
 \*   FAULT     0 | 1 storage writes may fail    PRE   activators that already own one active mapping
 \*   QUOTA     max active mappings per client   CLAIM / CRB   repaired design switches (FALSE FALSE = code as it was)
+\*   NODE2     processes calling through node n2      CLOCAL  TRUE: claim key routed to the node-local cache tier
 \*   VIEW      view (exhaustive) | gview (generation: ghosts hidden, hist hidden)
 CONSTANTS
   Acts = @@ACTS@@
@@ -13,6 +14,8 @@ CONSTANTS
   Quota = @@QUOTA@@
   Claim = @@CLAIM@@
   CreateRb = @@CRB@@
+  Node2 = @@NODE2@@
+  ClaimLocal = @@CLOCAL@@
   Emit = @@EMIT@@
 INIT Init
 NEXT Next
